@@ -247,21 +247,26 @@ void BatchLogRecordProcessor::Export()
   }
 #endif /* ENABLE_THREAD_INSTRUMENTATION_PREVIEW */
 
+  // A force flush request covers the records queued when it is first seen here. They are
+  // exported in batches of at most max_export_batch_size_, and the request is acknowledged
+  // once the last of them has been handed to the exporter.
+  std::uint64_t flush_sequence = 0;
+  size_t flush_remaining       = 0;
+
   do
   {
     std::vector<std::unique_ptr<Recordable>> records_arr;
     size_t num_records_to_export;
     std::uint64_t notify_force_flush =
         synchronization_data_->force_flush_pending_sequence.load(std::memory_order_acquire);
-    if (notify_force_flush)
+    const size_t buffer_size = buffer_.size();
+    if (notify_force_flush != flush_sequence)
     {
-      num_records_to_export = buffer_.size();
+      flush_sequence  = notify_force_flush;
+      flush_remaining = buffer_size;
     }
-    else
-    {
-      num_records_to_export =
-          buffer_.size() >= max_export_batch_size_ ? max_export_batch_size_ : buffer_.size();
-    }
+    num_records_to_export =
+        buffer_size >= max_export_batch_size_ ? max_export_batch_size_ : buffer_size;
 
     if (num_records_to_export == 0)
     {
@@ -283,7 +288,11 @@ void BatchLogRecordProcessor::Export()
 
     exporter_->Export(
         nostd::span<std::unique_ptr<Recordable>>(records_arr.data(), records_arr.size()));
-    NotifyCompletion(notify_force_flush, exporter_, synchronization_data_);
+    flush_remaining -= (std::min)(flush_remaining, num_records_to_export);
+    if (flush_remaining == 0)
+    {
+      NotifyCompletion(flush_sequence, exporter_, synchronization_data_);
+    }
   } while (true);
 
 #ifdef ENABLE_THREAD_INSTRUMENTATION_PREVIEW
